@@ -19,6 +19,8 @@ import (
 	"regexp"
 	"strings"
 
+	"goa.design/goa/v3/expr"
+
 	"verifharness/vh"
 )
 
@@ -133,6 +135,7 @@ func (r *run) process(stream string, d *Design) {
 	// metadata split cases: request message attributes = payload minus metadata
 	r.splitCases(d)
 	r.requiredCases(d)
+	r.orderCases(d)
 }
 
 var reVar = regexp.MustCompile(`\[[^\]]*\]|"[^"]*"|[0-9]+`)
@@ -405,7 +408,49 @@ func (r *run) splitCases(d *Design) {
 	}
 }
 
-var splitLines, runtimeLines, reqmdLines, historyLines []string
+var splitLines, runtimeLines, reqmdLines, historyLines, orderLines []string
+
+// orderCases: the parts of the Method DSL in the order they were declared and the
+// streaming kind goa derived while running it (MethodExpr.Stream).
+func (r *run) orderCases(d *Design) {
+	for si := range d.Svcs {
+		svc := &d.Svcs[si]
+		se := expr.Root.Service(svc.Name)
+		if se == nil {
+			continue
+		}
+		for mi := range svc.Methods {
+			m := &svc.Methods[mi]
+			me := se.Method(m.Name)
+			if me == nil {
+				continue
+			}
+			var ds []string
+			for _, part := range m.order() {
+				switch {
+				case part == "payload" && m.Payload != nil:
+					ds = append(ds, "DPayload")
+				case part == "streaming_payload" && m.SPayload != nil:
+					ds = append(ds, "DStreamingPayload")
+				case part == "result" && m.Result != nil:
+					ds = append(ds, "DResult")
+				case part == "streaming_result" && m.SResult != nil:
+					ds = append(ds, "DStreamingResult")
+				}
+			}
+			observed := int(me.Stream)
+			if observed == 0 { // never set: no stream
+				observed = 1
+			}
+			if observed != m.StreamKind() {
+				r.res.Fail("method-streaming-kind-differs-from-design", fmt.Sprintf("method %q declares %v: designed %s, goa's MethodExpr.Stream is %s", m.Name, ds,
+					coqKind[m.StreamKind()], coqKind[observed]), map[string]any{"design": d, "method": m.Name})
+			}
+			i := r.newCase(caseInfo{Stream: "order", Svc: svc.Name, Design: d})
+			orderLines = append(orderLines, fmt.Sprintf("(%d, %s, %s)", i, vh.CoqList(ds), coqKind[observed]))
+		}
+	}
+}
 
 // requiredCases: a payload (result) attribute sent as metadata (header, trailer) is
 // required there exactly when the design requires it (goa's finalised expression is
@@ -425,11 +470,18 @@ func (r *run) requiredCases(d *Design) {
 				names []string
 				io    *IO
 			}{{"metadata", append(append([]string{}, m.Metadata...), m.SecNames(d)...), m.Payload}, {"headers", m.Headers, res}, {"trailers", m.Trailers, res}} {
-				if len(part.names) == 0 || part.io == nil || (part.where == "metadata" && m.SPayload != nil) {
+				if part.io == nil {
 					continue
 				}
 				fs, isObj, _ := o.ioFields(part.io)
 				if !isObj {
+					continue
+				}
+				if part.where == "metadata" && m.SPayload != nil {
+					// with a streaming payload every payload attribute travels as request metadata
+					part.names = fldNames(fs)
+				}
+				if len(part.names) == 0 {
 					continue
 				}
 				var required, want []string
@@ -452,6 +504,13 @@ func (r *run) requiredCases(d *Design) {
 				if strings.Join(got, ",") != strings.Join(want, ",") {
 					r.res.Fail("metadata-required-flag-differs-from-design", fmt.Sprintf("%s.%s %s %v: the design requires %v, goa's finalised endpoint requires %v (the generated decoder hands user code a zero value instead of a missing-field error, or refuses an optional attribute)",
 						svc.Name, m.Name, part.where, part.names, want, got), map[string]any{"design": d, "method": m.Name, "where": part.where})
+				}
+				if part.where == "metadata" {
+					// the data the generated request decoder / client CLI are rendered from
+					if cg, ok := codegenRequired(svc.Name, mi, part.names); ok && strings.Join(cg, ",") != strings.Join(want, ",") {
+						r.res.Fail("metadata-required-flag-differs-from-design", fmt.Sprintf("%s.%s request metadata %v: the design requires %v, goa's code generation data (MetadataData.Required) says %v",
+							svc.Name, m.Name, part.names, want, cg), map[string]any{"design": d, "method": m.Name, "where": "codegen request metadata"})
+					}
 				}
 				i := r.newCase(caseInfo{Stream: "reqmd", Svc: svc.Name, Design: d})
 				reqmdLines = append(reqmdLines, fmt.Sprintf("(%d, %s, %s, %s)", i, strs(part.names), strs(required), strs(got)))
@@ -550,6 +609,7 @@ func finish(r *run, out string) {
 	writeLines(filepath.Join(out, "cases_split.txt"), splitLines)
 	writeLines(filepath.Join(out, "cases_runtime.txt"), runtimeLines)
 	writeLines(filepath.Join(out, "cases_reqmd.txt"), reqmdLines)
+	writeLines(filepath.Join(out, "cases_order.txt"), orderLines)
 	writeLines(filepath.Join(out, "cases_history.txt"), historyLines)
 	r.res.Distinct = len(r.distinct)
 	r.res.Rule = "designs are built through goa's public DSL from generated descriptions (fixed covering set, then seed-driven random designs inside the partial hypotheses, then the hostile attribute-name stream, then one witness design per recorded finding); a case is one rendered .proto file (or one attribute name of the name stream); distinct = distinct SHA-256 of the rendered text / of the name; every rendered file has a service block and at least two messages, so none is trivial"
